@@ -180,8 +180,75 @@ def model_run(pid, lines, timeout=600.0):
     return run_sharded([GFMODEL, 'run', pid], lines, timeout=timeout, limit_mem=False)
 
 
+COV_LINES = []          # sample of the input lines sent to the implementation by this run (for the coverage measurement)
+COV_MAX = 4000
+
+
 def impl_run(harness, lines, timeout=20.0, env=None, limit_mem=True):
+    if len(COV_LINES) < COV_MAX:
+        step = max(1, len(lines) // 400)
+        COV_LINES.extend((l, timeout) for l in lines[::step][:COV_MAX - len(COV_LINES)])
     return run_sharded([harness, 'run'], lines, timeout=timeout, env=env, limit_mem=limit_mem)
+
+
+def anchor_files(pid):
+    for l in open(os.path.join(VERIF, 'properties.jsonl')):
+        d = json.loads(l)
+        if d['id'] == pid:
+            return [f for f in d.get('anchors', {}).get('files', []) if f.endswith('.go')]
+    return []
+
+
+def measure_coverage(pid):
+    """Statement coverage of the property's anchor files reached by a sample of this run's implementation
+    inputs, measured with a coverage-instrumented build of the harness (go build -cover). Tie-quality
+    metric only: it says how much of the anchored code the correspondence run exercised."""
+    if not COV_LINES:
+        return None
+    out = os.path.join(HARN, 'gfharness-cover')
+    p = sh('go build -tags verif -cover -coverpkg=github.com/netsampler/goflow2/v2/...,gfharness -o %s .' % out,
+           cwd=HARN, env=GOENV, timeout=1200, check=False)
+    if p.returncode != 0:
+        return dict(error='cover build failed: ' + p.stdout[-300:])
+    import tempfile, shutil
+    d = tempfile.mkdtemp(prefix='gfcov', dir='/root/scratch')
+    try:
+        env = dict(GOENV, GOCOVERDIR=d)
+        lines = [l for l, _ in COV_LINES]
+        tmo = max(t for _, t in COV_LINES)
+        # one process per chunk so that a crash loses little; sequential (counters are per process)
+        for i in range(0, len(lines), 200):
+            run_lines([out, 'run'], lines[i:i + 200], timeout=max(60.0, tmo * 4), env=env, limit_mem=False)
+        prof = os.path.join(d, 'profile.txt')
+        q = sh('go tool covdata textfmt -i=%s -o=%s' % (d, prof), cwd=HARN, env=GOENV, timeout=300, check=False)
+        if q.returncode != 0 or not os.path.exists(prof):
+            return dict(error='covdata failed: ' + q.stdout[-300:])
+        tot, cov = {}, {}
+        for ln in open(prof):
+            if ln.startswith('mode:'):
+                continue
+            try:
+                loc, nst, cnt = ln.rsplit(' ', 2)
+                f = loc.split(':')[0]
+                nst, cnt = int(nst), int(cnt)
+            except ValueError:
+                continue
+            key = f.split('github.com/netsampler/goflow2/v2/')[-1]
+            # a block may be listed once per instrumented package copy: keep the max count per block
+            tot.setdefault(key, {})[loc] = nst
+            if cnt > 0:
+                cov.setdefault(key, {})[loc] = nst
+        res = {}
+        for f in anchor_files(pid):
+            if f in tot:
+                t = sum(tot[f].values())
+                c = sum(cov.get(f, {}).values())
+                res[f] = '%d/%d statements (%.0f%%)' % (c, t, 100.0 * c / max(1, t))
+            else:
+                res[f] = 'not linked into the harness'
+        return dict(files=res, inputs_replayed=len(lines))
+    finally:
+        shutil.rmtree(d, ignore_errors=True)
 
 
 # ----------------------------------------------------------------------------- byte helpers for mutators
@@ -385,6 +452,11 @@ class Check:
             notes=self.notes)
         if extra_cov:
             cov.update(extra_cov)
+        if self.tier == 'thorough' or os.environ.get('VERIF_COVER'):
+            try:
+                cov['impl_statement_coverage'] = measure_coverage(self.pid)
+            except Exception as e:      # the measurement never decides anything
+                cov['impl_statement_coverage'] = dict(error=str(e)[:300])
         ev = dict(property_id=self.pid, tier=self.tier, seed=self.seed, level='proof', coverage=cov,
                   assumptions=prop.ASSUMPTIONS, wall_s=round(wall, 2), violations=len(self.violations))
         json.dump(ev, open(os.path.join(VERIF, 'evidence', self.pid + '.json'), 'w'), indent=1)
